@@ -34,7 +34,11 @@ RULE = ('function specs kind in {lin, aff, cubic(flat root), sat(urating), kink,
         'chandrupatla with integer-valued ends must be bit-identical to the model run on the float64 image, '
         'non-integer float32 brackets within tolerance; a search failure that disappears when the same brackets '
         'are float64 gets the class <method>:integer-bracket-dtype-truncates / '
-        '<method>:float32-bracket-dtype-tolerance')
+        '<method>:float32-bracket-dtype-tolerance. GaussianKDE.percent_point (tie and search): 7 fitted data sets '
+        'including data located at 100 and 1e4, both solvers, probabilities that are exact float32 numbers handed over '
+        'as float64 / float32 / float16 arrays, np.float32 / np.float64 scalars, 0-d arrays (Python floats and lists '
+        'are not accepted by the code: counted), reference roots by scipy brentq on cdf(x) - u with u converted exactly '
+        'to float64; a failure that disappears with float64 U gets kde.percent_point:<method>:<representation>-U:<what>')
 PARTIAL = ['chandrupatla_converges_partial: termination of every lane within the iteration cap is not a theorem '
            '(the IQI step has no proved rate); proved instead: success, containment, sign bracket, smaller-|f| end, '
            'exact zero when fm == 0, a root within |a-b| of the result. The cap is exercised by the tie; the search '
@@ -445,7 +449,7 @@ def first_diff(xs, ys, lanes, tols=None):
 def run(ctx, lean):
     names = ['corr:spec-language', 'corr:bisect.exact', 'corr:bisect.libm', 'corr:bisect.caller-arrays',
              'corr:bisect.rejects', 'corr:chandrupatla.exact', 'corr:chandrupatla.libm',
-             'corr:chandrupatla.rejects', 'corr:chandrupatla.scalar', 'corr:chandrupatla.dtype',
+             'corr:chandrupatla.rejects', 'corr:chandrupatla.scalar', 'corr:chandrupatla.dtype', 'corr:bisect.dtype',
              'corr:kde.percent_point']
     if lean is None:
         for n in names[:-1]:
@@ -637,11 +641,10 @@ def tie_dtype(ctx, lean):
     """brackets handed over as float32 / int64 / int32 arrays.  chandrupatla: with integer-valued ends every
     intermediate value is exact in the narrower type and the code is in float64 from the second body on, so the
     result must be BIT-identical to the model run on the float64 image of the brackets; non-integer float32
-    brackets (first body in float32) agree within tolerance.  bisect: the model is the float64 algorithm; whether
-    the code equals it for non-float64 brackets is only COUNTED here (it does not as found: midpoints are stored
-    into copies that keep the caller's dtype) - the search oracle reports that under its own classes."""
+    brackets (first body in float32) agree within tolerance.  bisect (since the fix that works on float64
+    copies of the brackets): the same, as obligation `corr:bisect.dtype`."""
     rng = ctx.rng('dtype')
-    bad = None
+    bad = badb = None
     for j in range(20 * ctx.scale):
         exact = rng.random() < 0.7
         n = 1000 if j == 0 else rng.choice(LANE_COUNTS_QUICK)
@@ -659,12 +662,25 @@ def tie_dtype(ctx, lean):
             bad = shrink(lanes, d, lambda ls: cmp_chand(None, ls, real_chand(ls, None, None, maxiter, dtype=dtype),
                                                         lean_chand(lean, ls, None, None, maxiter), bitwise, None,
                                                         None, maxiter), {'dtype': tag, 'maxiter': maxiter})
-        if tag != 'float64' and n <= 100:
-            Rb = real_bisect(lanes, None, None, dtype=dtype)
-            Lb = lean_bisect(lean, lanes, None, None)
-            same = Rb['st'] == Lb['st'] == 'ok' and first_diff(Rb['res'], Lb['res'], lanes) is None
-            ctx.count(f'bisect:dtype:{tag}:' + ('equals-float64-model' if same else 'differs-from-float64-model(counted only)'))
+        # bisect works on float64 copies of the brackets (fix 3a0d9f2), so it IS the float64 model on the float64
+        # image of the brackets: bit-identical for integer-valued ends, within tolerance for non-integer float32
+        btol, bmaxiter = rng.choice([(None, None), (None, None), (1e-12, 100), (None, 7)])
+        Rb = real_bisect(lanes, btol, bmaxiter, dtype=dtype)
+        Lb = lean_bisect(lean, lanes, btol, bmaxiter)
+        ctx.case(('bisect-dtype', tag, btol, bmaxiter, tuple(lanes)), nontrivial=(Rb.get('iters', 0) > 1))
+        db = cmp_bisect(None, lanes, Rb, Lb, bitwise, btol, bmaxiter)
+        same = Rb['st'] == Lb['st'] == 'ok' and first_diff(Rb['res'], Lb['res'], lanes) is None
+        ctx.count(f'bisect:dtype:{tag}:' + ('bit-identical' if same else 'within-tolerance' if db is None else 'DIFFERS'))
+        if db is None and Rb['st'] == 'ok' and not (
+                Rb['xa'].dtype == Rb['orig'][0].dtype and np.array_equal(Rb['xa'], Rb['orig'][0]) and
+                np.array_equal(Rb['xb'], Rb['orig'][1])):
+            db = {'what': 'bisect changed the caller arrays'}
+        if db and badb is None:
+            badb = shrink(lanes, db, lambda ls: cmp_bisect(None, ls, real_bisect(ls, btol, bmaxiter, dtype=dtype),
+                                                           lean_bisect(lean, ls, btol, bmaxiter), bitwise, btol,
+                                                           bmaxiter), {'dtype': tag, 'tol': btol, 'maxiter': bmaxiter})
     ctx.ob('corr:chandrupatla.dtype', bad is None, 'tie', bad or 'ok')
+    ctx.ob('corr:bisect.dtype', badb is None, 'tie', badb or 'ok')
 
 
 def chand_tols(lanes, eps_m, eps_a, maxiter, iters):
@@ -799,43 +815,150 @@ def kde_datasets(nprng):
         'bimodal': np.concatenate([nprng.normal(-3.0, 0.5, 40), nprng.normal(4.0, 1.0, 40)]),
         'skewed': nprng.exponential(2.0, 80) + 10.0,
         'small': nprng.normal(100.0, 0.01, 5),
+        'bimodal-at-100': np.concatenate([nprng.normal(95.0, 1.0, 40), nprng.normal(105.0, 2.0, 40)]),
+        'skewed-at-1e4': 1e4 + nprng.exponential(25.0, 80),
+        'narrow-at-1e4': nprng.normal(1e4, 0.5, 30),
     }
 
 
-def kde_check(name, data, qs):
-    """returns list of (what, detail) failures of the oracle cdf(ppf(q)) ~ q for both methods."""
+def kde_probabilities(nprng, n):
+    """probabilities that are exactly float32 numbers (so the float64 / float32 variants of U are the SAME
+    numbers), bulk + tails + the 0 / 1 boundary values."""
+    u = np.concatenate([nprng.uniform(0.001, 0.999, n), [1e-4, 1e-3, 0.5, 0.25, 1 - 1e-3, 1 - 1e-4, 0.0, 1.0]])
+    nprng.shuffle(u)
+    return np.float32(u).astype(float)
+
+
+KDE_VARIANTS = ('float64-array', 'float32-array', 'float16-array', 'np.float32-scalar', 'np.float64-scalar',
+                '0d-array', 'pyfloat', 'list')
+
+
+def kde_variant_inputs(variant, u64):
+    """list of (index set, U object) to call percent_point with."""
+    inner = [i for i in range(len(u64)) if 0.0 < u64[i] < 1.0]
+    if variant == 'float64-array':
+        return [(list(range(len(u64))), u64.copy())]
+    if variant == 'float32-array':
+        return [(list(range(len(u64))), u64.astype(np.float32))]
+    if variant == 'float16-array':      # only the values that are exactly float16 numbers
+        idx = [i for i in range(len(u64)) if float(np.float16(u64[i])) == u64[i]]
+        return [(idx, u64[idx].astype(np.float16))] if idx else []
+    pick = inner[:3]
+    if variant == 'np.float32-scalar':
+        return [([i], np.float32(u64[i])) for i in pick]
+    if variant == 'np.float64-scalar':
+        return [([i], np.float64(u64[i])) for i in pick]
+    if variant == '0d-array':
+        return [([i], np.array(u64[i], dtype=np.float32)) for i in pick[:2]]
+    if variant == 'pyfloat':
+        return [([i], float(u64[i])) for i in pick[:1]]
+    if variant == 'list':
+        return [(pick, [float(u64[i]) for i in pick])]
+    raise KeyError(variant)
+
+
+def kde_oracle(name, data, u64, variants=KDE_VARIANTS, count=None):
+    """C18 through GaussianKDE.percent_point: for both solvers and every representation of the probabilities,
+    every lane comes back inside the bracket and within the property's tolerance of the root of cdf(x) - u
+    (reference: scipy brentq on the same function with u converted exactly to float64), 0 / 1 map to -inf / +inf,
+    the output has the shape of the input, a lane solved alone agrees with the lane in the batch.
+    Returns a list of (class suffix, detail)."""
+    from scipy.optimize import brentq
     from copulas.univariate import GaussianKDE
-    out = []
     kde = GaussianKDE()
     kde.fit(data)
-    lower, upper = kde._get_bounds()
-    grid = np.linspace(lower, upper, 2001)
-    maxpdf = float(np.max(kde.probability_density(grid))) * 1.5
-    xs = {}
-    for method, tol in (('bisect', 1e-8), ('chandrupatla', 1e-9 * (upper - lower))):
-        x = kde.percent_point(qs.copy(), method=method)
-        xs[method] = x
-        if not np.all((x >= lower) & (x <= upper)):
-            i = int(np.argmin((x >= lower) & (x <= upper)))
-            out.append((f'{method}:outside-bounds', {'q': float(qs[i]), 'x': float(x[i]), 'bounds': [float(lower), float(upper)]}))
-            continue
-        err = np.abs(kde.cumulative_distribution(x) - qs)
-        band = maxpdf * (tol + 8 * EPS * max(abs(lower), abs(upper))) + 1e-13
-        if not np.all(err <= band):
-            i = int(np.argmax(err))
-            out.append((f'{method}:residual', {'dataset': name, 'q': float(qs[i]), 'x': float(x[i]),
-                                               'cdf(x)-q': float(err[i]), 'band': band}))
-    return out, xs
+    lower, upper = (float(v) for v in kde._get_bounds())
+    width = upper - lower
+    inner = (u64 > 1e-6) & (u64 < 1 - 1e-6)
+    roots = np.full(len(u64), np.nan)
+    for i in np.nonzero(inner)[0]:
+        roots[i] = brentq(lambda x: float(kde.cumulative_distribution(np.array([x]))[0]) - u64[i], lower, upper,
+                          xtol=1e-14, rtol=4 * EPS, maxiter=500)
+    with np.errstate(all='ignore'):
+        pdf = np.asarray(kde.probability_density(np.where(inner, roots, lower)), dtype=float)
+    scale = max(1.0, abs(lower), abs(upper))
+    out = []
+    passed64 = {}
+    for method in ('chandrupatla', 'bisect'):
+        base = 1e-8 if method == 'bisect' else 1e-9 * width
+        tol = base + 8 * EPS * scale + 32 * EPS / np.maximum(pdf, 1e-300)
+        for variant in variants:
+            bad = None
+            for idx, U in kde_variant_inputs(variant, u64):
+                try:
+                    x = kde.percent_point(U, method=method)
+                except (AttributeError, TypeError) as e:
+                    if variant in ('pyfloat', 'list'):
+                        if count:
+                            count(f'kde:{variant}:not-accepted({type(e).__name__})')
+                        bad = 'skip'
+                        break
+                    bad = ('raises', {'error': repr(e)[:200]})
+                    break
+                except Exception as e:  # noqa
+                    bad = ('raises', {'error': repr(e)[:200]})
+                    break
+                if np.shape(x) != np.shape(U):
+                    bad = ('shape', {'input_shape': list(np.shape(U)), 'output_shape': list(np.shape(x))})
+                    break
+                xv = np.asarray(x, dtype=float).reshape(-1)
+                for k, i in enumerate(idx):
+                    u, xi = u64[i], float(xv[k])
+                    if u == 0.0 or u == 1.0:
+                        if xi != (-math.inf if u == 0.0 else math.inf):
+                            bad = ('boundary', {'u': u, 'x': xi})
+                        continue
+                    if not inner[i]:
+                        continue
+                    if not (lower <= xi <= upper):
+                        bad = ('outside-bounds', {'u': u, 'x': xi, 'bounds': [lower, upper]})
+                        break
+                    resid = float(kde.cumulative_distribution(np.array([xi]))[0]) - u
+                    if not (abs(xi - roots[i]) <= tol[i] or resid == 0.0):
+                        bad = ('not-within-tolerance', {'u': u, 'x': xi, 'root': float(roots[i]),
+                                                        'error': abs(xi - roots[i]), 'allowed': float(tol[i]),
+                                                        'bracket_width': width, 'residual': resid})
+                        break
+                if bad:
+                    break
+                if variant.endswith('-array') and len(idx) > 1:      # each lane as if it were alone
+                    for k in sorted({0, len(idx) // 2, len(idx) - 1}):
+                        i = idx[k]
+                        if not inner[i]:
+                            continue
+                        alone = np.asarray(kde.percent_point(U[k:k + 1], method=method), dtype=float)
+                        if not abs(float(alone[0]) - float(xv[k])) <= 2 * tol[i]:
+                            bad = ('lane-vs-alone', {'u': u64[i], 'batch': float(xv[k]), 'alone': float(alone[0]),
+                                                     'allowed': 2 * float(tol[i])})
+                            break
+                if bad:
+                    break
+            if bad == 'skip':
+                continue
+            if count:
+                count(f'kde:{method}:{variant}:' + ('ok' if not bad else 'FAILS'))
+            if variant == 'float64-array':
+                passed64[method] = bad is None
+            if bad:
+                what, detail = bad
+                detail = dict(detail, dataset=name, method=method, U_representation=variant)
+                if variant != 'float64-array' and passed64.get(method):
+                    # the same numbers as a float64 array pass: attributable to the representation of U
+                    cls = f'{method}:{variant}-U:{what}'
+                    detail['with_float64_U'] = 'passes'
+                else:
+                    cls = f'{method}:{what}'
+                out.append((cls, detail))
+    return out
 
 
 def tie_kde(ctx):
     nprng = ctx.nprng('kde')
     bad = None
     for name, data in kde_datasets(nprng).items():
-        qs = np.concatenate([nprng.uniform(0.001, 0.999, 20), [1e-6, 1e-3, 0.5, 1 - 1e-3, 1 - 1e-6]])
-        fails, xs = kde_check(name, data, qs)
-        ctx.case(('kde', name, tuple(qs.tolist())))
-        ctx.count(f'kde:{name}')
+        u64 = kde_probabilities(nprng, 10)
+        fails = kde_oracle(name, data, u64, count=ctx.count)
+        ctx.case(('kde', name, tuple(u64.tolist())))
         if fails and bad is None:
             bad = {'dataset': name, 'fail': fails[0]}
     ctx.ob('corr:kde.percent_point', bad is None, 'tie', bad or 'ok')
@@ -1093,13 +1216,16 @@ def search(ctx, deep):
     nprng = ctx.nprng('search-kde')
     for rep in range(3 if deep else 1):
         for name, data in kde_datasets(nprng).items():
-            qs = nprng.uniform(1e-6, 1 - 1e-6, 200 if deep else 40)
-            fails, xs = kde_check(name, data, qs)
+            u64 = kde_probabilities(nprng, 120 if deep else 25)
+            fails = kde_oracle(name, data, u64, count=ctx.count)
             checked += 1
             for what, detail in fails:
                 found += 1
-                ctx.fail_input('GaussianKDE.percent_point', {'dataset': data.tolist(), 'detail': detail}, detail,
-                               'cdf(percent_point(q)) = q within the solver tolerance', f'kde.percent_point:{what}')
+                ctx.fail_input('GaussianKDE.percent_point',
+                               {'dataset': data.tolist(), 'U': u64.tolist(), 'detail': detail}, detail,
+                               'every lane of percent_point(U, method) is inside the bracket and within the solver '
+                               'tolerance of the root of cdf(x) - U, whatever the representation of U',
+                               f'kde.percent_point:{what}')
     ctx.support = {'oracle_checks': checked, 'failures': found, 'deep': deep,
                    'tolerance_misses_outside_property_family(counted only)': misses}
 
@@ -1110,9 +1236,8 @@ def replay(ctx, payload):
     lanes = [tuple(l) for l in (inp.get('lanes') or [])]
     if cls.startswith('kde.'):
         data = np.array(inp['dataset'])
-        q = np.array([inp['detail']['q']]) if isinstance(inp.get('detail'), dict) and 'q' in inp['detail'] else np.linspace(0.01, 0.99, 50)
-        fails, _ = kde_check('replay', data, q)
-        return bool(fails)
+        u64 = np.array(inp['U'], dtype=float) if inp.get('U') else np.float32(np.linspace(0.01, 0.99, 25)).astype(float)
+        return bool(kde_oracle('replay', data, u64))
     method = inp.get('method', 'bisect')
     if not lanes:
         return False
